@@ -434,6 +434,15 @@ def grad_umnn_rule(ctx):
                         res.undecide(fi.qualname, "integrator call with fewer than four positional arguments")
                         continue
                     net, flat = c.args[2], c.args[3]
+                    # A-UMNN, second clause: the integrators' hand-written backward re-integrates from 0 with steps
+                    # x / nb_steps -- it is the gradient of the forward value only for a lower limit x0 == 0
+                    x0 = c.args[0]
+                    zero_like = isinstance(x0, ast.Call) and (norm_text(x0.func) in ("torch.zeros", "torch.zeros_like") or (isinstance(x0.func, ast.Attribute) and x0.func.attr in ("to", "type_as", "new_zeros", "expand", "expand_as", "contiguous") and any(isinstance(q, ast.Call) and norm_text(q.func) in ("torch.zeros", "torch.zeros_like") or (isinstance(q, ast.Call) and isinstance(q.func, ast.Attribute) and q.func.attr == "new_zeros") for q in uwalk(x0)) and not any(isinstance(q, ast.BinOp) for q in uwalk(x0))))
+                    if not zero_like:
+                        key0 = ("x0", norm_text(x0)[:80])
+                        if key0 not in seen:
+                            seen.add(key0)
+                            res.fail(Finding("GRAD-UMNN", fi.module, fi.qualname, path.ret_node if getattr(path, "ret_node", None) is not None else fi.node, "the integrator `%s.apply` is given the lower limit `%s`, which is not a zeros tensor: the integrators' custom backward steps by x / nb_steps from the lower limit (it assumes x0 == 0), so for any other origin the gradients with respect to the integrand network's parameters and the conditioner are those of a different integral -- silently (the forward values are right)" % (norm_text(c.func.value)[:30], norm_text(x0)[:50]), construct="lower limit of %s.apply" % norm_text(c.func.value)[:30]))
                     conds = ", ".join(("" if pol else "not ") + norm_text(raw)[:30] for _et, raw, pol in path.conds) or "-"
                     key = (norm_text(net), norm_text(flat)[:120], conds)
                     if key in seen:
